@@ -1002,12 +1002,17 @@ class Columns(Widget, WidgetContainerMixin, WidgetContainerListContentsMixin):
 
         if not data:
             if size:
-                return SolidCanvas(" ", size[0], (size[1:] + (1,))[0])
+                canvas = CompositeCanvas(SolidCanvas(" ", size[0], (size[1:] + (1,))[0]))
+                canvas.set_depends([w for w, _ in self.contents])
+                return canvas
             raise ColumnsError("No data to render")
 
         canvas = CanvasJoin(data)
         if size and canvas.cols() < size[0]:
             canvas.pad_trim_left_right(0, size[0] - canvas.cols())
+        if len(data) < len(self.contents) and any(o[0] == WHSettings.PACK for _w, o in self.contents):
+            # whether a PACK column fits depends on that widget itself: the hidden widgets decide the layout too
+            canvas.set_depends([w for w, _ in self.contents])
         return canvas
 
     def get_cursor_coords(self, size: tuple[()] | tuple[int] | tuple[int, int]) -> tuple[int, int] | None:
